@@ -7,7 +7,7 @@ only through HtmlBlock / HtmlSpan tokens (H3, whole pipeline on tiny documents).
 import html
 from vfy.lemma import lemma, P, Duck
 import vfy.lemma as L
-from vfy.lemmas.common import ALPH14, cp_ok, cp_in, S, all_ok, all_in, ks, fixed, by
+from vfy.lemmas.common import ALPH14, cp_ok, cp_md, cp_in, S, all_ok, all_in, ks, fixed, by
 from vfy.plug.stubs import install_quote
 from mistletoe.html_renderer import HtmlRenderer
 from mistletoe import span_token, block_token
@@ -521,3 +521,65 @@ def witness_mailto_unescaped():
     import mistletoe
     out = mistletoe.markdown('<http://a@b"x>')
     return not wf_html(out), "markdown('<http://a@b\"x>') = %r" % out
+
+
+# ---------------------------------------------------------------------------------------- H4
+# HtmlRenderer on REAL tokens with one symbolic attribute (see C01-T4)
+
+H4_HOLES = ['text', 'heading-text', 'item-text', 'cell-text', 'quote-text', 'emphasis-text', 'fence-language', 'fence-content', 'indented-content', 'code-span',
+            'link-target', 'link-title', 'image-src', 'image-title', 'autolink']
+
+
+def h4_deliverable(c1, c2, c3):
+    from vfy.lemmas.c01 import T4_HOLES
+    return T4_HOLES[P('hole')][3](S(P('k'), c1, c2, c3))
+
+
+def h4_replay(c1, c2, c3, dq, sq):
+    from mistletoe import Document
+    from mistletoe.html_renderer import HtmlRenderer
+    from vfy.lemmas.c01 import T4_HOLES
+    w = S(P('k'), c1, c2, c3)
+    skeleton, path, setter, deliverable, texts = T4_HOLES[P('hole')]
+    if not deliverable(w):
+        return False, 'pre-condition false for %r' % w
+    kw = {'html_escape_double_quotes': dq, 'html_escape_single_quotes': sq, 'process_html_tokens': False}
+    seen = []
+    for text in texts(w):
+        with HtmlRenderer(**kw) as r:
+            out = r.render(Document(text))
+        if not wf_html(out):
+            return True, 'HtmlRenderer(**%r).render(Document(%r)) = %r: not well-formed / markup injected' % (kw, text, out)
+        seen.append((text, out))
+    return False, 'no text delivering %r breaks the output: %r' % (w, seen)
+
+
+@lemma('H4.render-attrs', 'C08', quick=[{'hole': h, 'k': 2} for h in H4_HOLES], thorough=[{'hole': h, 'k': k} for h in H4_HOLES for k in (0, 1, 2)] + [{'hole': h, 'k': 3, 'timeout': 3000} for h in H4_HOLES],
+       timeout=600, per_path=60, replay=h4_replay,
+       stubs=['urllib.parse.quote -> contract stub', 'concrete skeleton parsed natively, one attribute replaced by the symbolic string'],
+       covers=['html_renderer.py:HtmlRenderer.render_document', 'html_renderer.py:HtmlRenderer.render_table_cell', 'html_renderer.py:HtmlRenderer.render_list_item',
+               'html_renderer.py:HtmlRenderer.render_block_code', 'html_renderer.py:HtmlRenderer.render_image'],
+       note='every string attribute HtmlRenderer reads takes any k-character value the parser can deliver for it, quote options symbolic, raw HTML off: '
+            'the output is well-formed and the value appears only as escaped text / attribute value; counterexamples replayed through Document(text) only')
+def h4_render_attrs(c1: int, c2: int, c3: int, dq: bool, sq: bool) -> bool:
+    """
+    pre: all_ok(cp_md, P('k'), c1, c2, c3) and h4_deliverable(c1, c2, c3)
+    post: _
+    """
+    from mistletoe import Document
+    from mistletoe.html_renderer import HtmlRenderer
+    from vfy.lemma import untraced
+    from vfy.lemmas.c01 import T4_HOLES
+    from vfy.lemmas.common import cp_md
+    install_quote()
+    w = S(P('k'), c1, c2, c3)
+    skeleton, path, setter, deliverable, texts = T4_HOLES[P('hole')]
+    with HtmlRenderer(html_escape_double_quotes=dq, html_escape_single_quotes=sq, process_html_tokens=False) as r:
+        with untraced():
+            doc = Document(skeleton)
+        t = doc
+        for i in path:
+            t = t.children[i]
+        setter(t, w)
+        out = r.render(doc)
+    return wf_html(out)
